@@ -96,8 +96,12 @@ def main(argv=None):
     from oracle import validate
     ov_fails, ov_counts = validate.run(verbose=False)
     print(f"[{prop}] oracle validation vs dense simulator: {sum(ov_counts.values())} cases, {len(ov_fails)} failures")
-    print(f"[{prop}] tier={a.tier} jobs={len(jobs)} workers={a.workers} repo={git_head('/repo')}"
-          f"{'+dirty' if git_dirty('/repo') else ''}")
+    repo = os.environ.get("VERIF_REPO") or "/repo"
+    import graphiq as _g
+    assert os.path.realpath(os.path.dirname(os.path.dirname(_g.__file__))) == os.path.realpath(repo), \
+        f"graphiq imported from {_g.__file__}, expected {repo}"
+    print(f"[{prop}] tier={a.tier} jobs={len(jobs)} workers={a.workers} repo={repo}@{git_head(repo)}"
+          f"{'+dirty' if git_dirty(repo) else ''}")
     results = runner.run_jobs(jobs, workers=a.workers)
 
     # ---- classify ------------------------------------------------------------------------------------
